@@ -59,7 +59,8 @@ class Engine(StmtMixin):
             if isinstance(v, Raise):
                 out.append((s2, v))
                 continue
-            out.append(self.do_yield(s2, ctx, c, k, v, e.lineno))
+            r = self.do_yield(s2, ctx, c, k, v, e.lineno)
+            out.extend(r) if isinstance(r, list) else out.append(r)
         return out
 
     def do_yield(self, st: State, ctx: Ctx, c: Contract, k: int, yielded: Any, line: int):
@@ -101,6 +102,30 @@ class Engine(StmtMixin):
                 self.oblige(st, self.eval_clause(cl, st, ictx), "yield-inv", line, f"yield{k}:{cl.name}", cl.tags)
             st.set(ctx.frame, "OUT", z3.Concat(fr["OUT"], z3.Unit(ops.as_bytes(st, yielded))))
             return (st, None)
+        if c.gen == "env":
+            # a generator driven by an arbitrary environment (a context-manager generator, a request-handler async
+            # generator): at every yield the yield invariant is owed, then the environment either resumes it (sending a
+            # value of type env["yield_send"], or None) or throws any exception below env["yield_throw"] into it
+            for cl in self.yield_clauses(c, k):
+                self.oblige(st, self.eval_clause(cl, st, ictx), "yield-inv", line, f"yield{k}:{cl.name}", cl.tags)
+            outs = []
+            thr = c.env.get("yield_throw")
+            if thr:
+                classes = self.representatives(self.class_by_name(thr))
+                s2 = st.clone()
+                exc = self.make_exc_any(s2, classes)
+                ectx = ctx.sub(spec=True)
+                ectx.specials["exc"] = exc
+                for gname, expr in c.env.get("ghost_on_throw", {}).items():
+                    s2.heap[s2.ghost][gname] = ops.lift(self.eval1(ast.parse(expr, mode="eval").body, s2, ectx))
+                s2.trace.append(f"thrown-at-yield{k}")
+                outs.append((s2, Raise(exc)))
+            sent_t = c.env.get("yield_send", "none")
+            sent = None if sent_t == "none" else self.make_symbolic(st, sent_t, "sent")
+            for gname, expr in c.env.get("ghost_on_send", {}).items():
+                st.heap[st.ghost][gname] = ops.lift(self.eval1(ast.parse(expr, mode="eval").body, st, ictx))
+            outs.append((st, sent))
+            return outs
         raise EngineError(f"generator protocol {c.gen}")
 
     def new_generator_object(self, st: State, ctx: Ctx, fi: FuncInfo, c: Contract, args, kwargs, line: int) -> Ref:
@@ -302,8 +327,7 @@ class Engine(StmtMixin):
         for cname, clauses in c.raises.items():
             classes = [self.class_by_name(cname)]
             if cname in ("BaseException", "Exception", "OSError"):
-                from .interp import EXC_REPRESENTATIVES
-                classes = [PyClass(k) for k in EXC_REPRESENTATIVES if self.is_subclass(PyClass(k), classes[0])]
+                classes = self.representatives(classes[0])
             if classes:
                 s2 = st.clone()
                 exc = self.make_exc_any(s2, classes)
